@@ -269,3 +269,47 @@ Example int_obtain_example :
   let src := SMint [MAdd 1%N (- int_max); MSet 2%N 5; MAdd 1%N int_max; MAdd 1%N int_max; MAdd 1%N 7] 1%N in
   int_src_wf src = true /\ int_src_bytes_ok src /\ int_obtain src = Some int_max.
 Proof. repeat split; vm_compute; reflexivity. Qed.
+
+(* ---- the MintBuilder's own, narrower range: -(2^64-1) .. 2^64-1 (since /repo 0175f0b) ---- *)
+Definition in_mint_range (z : Z) : Prop := mint_min <= z <= int_max.
+Definition ms_in_mint_range (s : mint_state) : Prop := Forall (fun kv : N * Z => in_mint_range (snd kv)) s.
+
+Lemma ms_set_mint_range k v s : ms_in_mint_range s -> in_mint_range v -> ms_in_mint_range (ms_set k v s).
+Proof.
+  unfold ms_in_mint_range. intros H V. induction H as [|[k' v'] s Hk Hs IH]; cbn [ms_set].
+  - apply Forall_cons; [exact V | apply Forall_nil].
+  - destruct (k =? k')%N; apply Forall_cons; auto.
+Qed.
+
+Lemma ms_get_mint_range k s v : ms_in_mint_range s -> ms_get k s = Some v -> in_mint_range v.
+Proof.
+  unfold ms_in_mint_range. induction 1 as [|[k' v'] s Hk _ IH]; cbn [ms_get]; [discriminate|].
+  destruct (k =? k')%N; [intros X; inversion X; subst; exact Hk | exact IH].
+Qed.
+
+Lemma mint_step_mint_range s op : ms_in_mint_range s -> int_in_range (mint_op_amount op) = true ->
+  ms_in_mint_range (fst (mint_step s op)).
+Proof.
+  intros H A. apply int_in_range_iff in A. assert (Z0 : in_mint_range 0) by (unfold in_mint_range, mint_min, int_max, two64Z; lia).
+  destruct op as [k a | k a]; cbn [mint_step mint_op_amount] in *.
+  - destruct ((a =? 0) || (a <? mint_min)) eqn:G; [exact H|].
+    assert (H0 : ms_in_mint_range match ms_get k s with Some _ => s | None => ms_set k 0 s end)
+      by (destruct (ms_get k s); [exact H | apply ms_set_mint_range; assumption]).
+    destruct (i128_ok _ && _) eqn:C; cbn [fst]; [|exact H0].
+    apply andb_true_iff in C. destruct C as [_ C]. apply ms_set_mint_range; [exact H0 | unfold in_mint_range; lia].
+  - destruct ((a =? 0) || (a <? mint_min)) eqn:G; cbn [fst]; [exact H|]. apply ms_set_mint_range; [exact H|].
+    unfold in_mint_range, int_max. lia.
+Qed.
+
+Theorem mint_run_mint_range ops : forall s, ms_in_mint_range s ->
+  forallb (fun op => int_in_range (mint_op_amount op)) ops = true ->
+  ms_in_mint_range (fst (mint_run mint_step s ops)).
+Proof.
+  induction ops as [|op ops IH]; intros s H A; cbn [mint_run]; [exact H|].
+  cbn [forallb] in A. apply andb_true_iff in A. destruct A as [A1 A2].
+  pose proof (mint_step_mint_range s op H A1) as H1. destruct (mint_step s op) as [s1 ok]. cbn [fst] in H1.
+  specialize (IH s1 H1 A2). destruct (mint_run mint_step s1 ops) as [s2 oks]. exact IH.
+Qed.
+
+Lemma in_mint_range_int z : in_mint_range z -> int_in_range z = true /\ z <> int_min.
+Proof. unfold in_mint_range, mint_min, int_max, int_min. intros H. split; [apply int_in_range_iff|]; unfold two64Z in *; lia. Qed.
